@@ -72,7 +72,7 @@ inductive PPC
   | pinging (q : ReqId) (r : Rid)      -- needsReload is inside llama.Ping, holding refMu
   | use (q : ReqId) (r : Rid)
   | expire (q : ReqId) (r : Rid)
-  | waitUnload (q : ReqId)
+  | waitUnload (q : ReqId) (r : Rid)    -- r: the runner told to expire (ghost; the code only waits for any unload event)
   | load (q : ReqId)
 deriving Repr, DecidableEq
 
@@ -352,11 +352,11 @@ def step (v : Variant) (s : State) : Act → Option State
     match s.ppc with
     | .expire q r =>
       if (s.runners r).locked then none
-      else some { triggerExpire s r with ppc := .waitUnload q }
+      else some { triggerExpire s r with ppc := .waitUnload q r }
     | _ => none
   | .pWaitUnload =>
     match s.ppc with
-    | .waitUnload q => if s.unloadedQ > 0 then some { s with unloadedQ := s.unloadedQ - 1, ppc := .eval q } else none
+    | .waitUnload q _ => if s.unloadedQ > 0 then some { s with unloadedQ := s.unloadedQ - 1, ppc := .eval q } else none
     | _ => none
   | .pLoad ok =>
     match s.ppc with
